@@ -71,6 +71,10 @@ func (c *dupOptionChecker) getVariadicArgs(call *ast.CallExpr) ([]ast.Expr, type
 	}
 
 	last := sign.Params().Len() - 1
+	if last > len(call.Args) {
+		// f(g()) where g returns several values that are forwarded to f.
+		return nil, nil
+	}
 	sliceType, ok := sign.Params().At(last).Type().(*types.Slice)
 	if !ok {
 		return nil, nil
